@@ -30,6 +30,9 @@ CHECKS = {
  "C14": dict(design="§5 C14", engine="XH",
              technique="CrossHair (z3) symbolic execution of run_file_rename over an in-memory directory; page names from a systematic menu, link names by relation to the renamed page",
              note="stubs: prepend_zdir/get_all_zfiles over an in-memory FS; names and link shapes from finite menus (symbolic names are beyond reach: str.replace)"),
+ "C16": dict(design="§6 C16", engine="XH",
+             technique="CrossHair (z3) symbolic execution of init_from_template / ZorgTemplateManager.render / _build_template_in_dir / process_var_map over an in-memory directory and template environment",
+             note="stubs: in-memory FS and template environment (jinja2 trusted, real in replay), strptime model; pattern maps, targets, variable maps from finite menus"),
 }
 NA = {
  "C13": "crash points between external effects (SQLite transactions, OS file writes) cannot be made symbolic: the effects are C-level/ORM internals; with them concrete a symbolic crash index is realised at the first effect, which is enumeration of faulted runs, a different technique (DESIGN.md §8)",
